@@ -1,4 +1,5 @@
 import DoraModel.Match.LemmasSurface
+import DoraModel.Match.ModelWT
 /-!
 C11, the conversion `convert_pattern` of surface patterns to matrix patterns is meaning preserving.
 
@@ -10,97 +11,7 @@ C11, the conversion `convert_pattern` of surface patterns to matrix patterns is 
 -/
 namespace Dora.Match
 
-/-! ## what the type checker accepts -/
-
-/-- number of `..` items -/
-def restCount (ps : List SPat) : Nat := (ps.filter SPat.isRest).length
-
-/-- the recorded field indices (`some k`) are pairwise distinct -/
-def tgDistinct : List (Option Nat) → Bool
-  | [] => true
-  | none :: tg => tgDistinct tg
-  | some k :: tg => !tg.contains (some k) && tgDistinct tg
-
-/-- items of a pattern with named fields: a `..` item carries no name and is the LAST item; every other item
-    is of the form `name = pat` -/
-def namedShape : List (Option Nat) → List SPat → Bool
-  | [], [] => true
-  | name :: names, p :: ps =>
-    (if p.isRest then name.isNone && ps.isEmpty else name.isSome) && namedShape names ps
-  | _, _ => false
-
-/-- positional items against `n` fields: at most one `..`; without `..` exactly one item per field, with `..`
-    at most `n` other items -/
-def posShape (n : Nat) (ps : List SPat) : Bool :=
-  decide (restCount ps ≤ 1) && (if restCount ps == 0 then ps.length == n else decide (ps.length ≤ n + 1))
-
-/-- the resolved path fits declaration `d` (an enum variant of `d`; the class / struct `d` itself) -/
-def targetOk (env : Env) (d : Nat) : Target → Bool
-  | .variant e _ => e == d && (env d).kind == .enum
-  | .cls c => c == d && (env d).kind == .cls && (env d).variants.length == 1
-  | .struct s => s == d && (env d).kind == .struct && (env d).variants.length == 1
-
-/-- index of the target's field list in the declaration -/
-def Target.vid : Target → Nat
-  | .variant _ v => v
-  | _ => 0
-
-mutual
-/-- `spatWT env p t`: the type checker accepts pattern `p` for a scrutinee of type `t` -/
-def spatWT (env : Env) : SPat → Ty → Bool
-  | .underscore, _ => true
-  | .var, _ => true
-  -- `..` is only an item of a tuple / constructor pattern
-  | .rest, _ => false
-  | .litBool _, t => t == .bool
-  -- Int / Char / String literal (`litTy (.bool _) = none`)
-  | .lit l, t => litTy l == some t
-  | .const (.bool _), t => t == .bool
-  | .const l, t => litTy l == some t
-  -- a path to a variant without parentheses: the variant has no fields
-  | .identVariant e v, t => t == .adt e && (env e).kind == .enum && (env e).variants[v]? == some []
-  | .alt ps, t => !ps.isEmpty && altsSWT env ps t
-  -- tuple pattern: the recorded arity is the tuple type's, positional rule for the items
-  | .tuple n ps, .adt d =>
-    (env d).kind == .tuple && (env d).variants.length == 1 &&
-    (match (env d).variants[0]? with
-     | some tys => n == tys.length && posShape tys.length ps &&
-         itemsWT env tys (tcIndices tys.length ps.length 0 false ps) ps
-     | none => false)
-  | .tuple _ _, _ => false
-  -- constructor pattern: without items the target has no fields; all items positional: positional rule;
-  -- otherwise (`namedWT`): every item other than `..` is `name = pat`, `name` resolved to field `k` of the
-  -- target, `pat` accepted at that field's type, no field named twice, `..` (without name) only as last item
-  | .ctor tg names ps, .adt d =>
-    targetOk env d tg &&
-    (match (env d).variants[tg.vid]? with
-     | some tys =>
-       if ps.isEmpty then tys.isEmpty && names.isEmpty
-       else names.length == ps.length &&
-         (if names.all Option.isNone then
-            posShape tys.length ps && itemsWT env tys (tcIndices tys.length ps.length 0 false ps) ps
-          else itemsWT env tys names ps && namedShape names ps && tgDistinct names)
-     | none => false)
-  | .ctor _ _ _, _ => false
-/-- every alternative is accepted at `t` -/
-def altsSWT (env : Env) : List SPat → Ty → Bool
-  | [], _ => true
-  | p :: ps, t => spatWT env p t && altsSWT env ps t
-/-- pointwise over recorded field indices / items: a `..` item needs nothing; any other item has a recorded
-    field index `idx`, that field exists and the item is accepted at the field's type -/
-def itemsWT (env : Env) (tys : List Ty) : List (Option Nat) → List SPat → Bool
-  | r :: tc, p :: ps =>
-    (match p with
-     | .rest => true
-     | p => match r with
-       | some idx => (match tys[idx]? with | some t' => spatWT env p t' | none => false)
-       | none => false) && itemsWT env tys tc ps
-  | _, _ => true
-end
-
-/-- the rule for items with named fields used in `spatWT` -/
-def namedWT (env : Env) (tys : List Ty) (names : List (Option Nat)) (ps : List SPat) : Bool :=
-  itemsWT env tys names ps && namedShape names ps && tgDistinct names
+/-! ## what the type checker accepts: `spatWT` and its parts are defined in `ModelWT.lean` -/
 
 /-! ## unfolding lemmas (a `..` item / any other item) -/
 
@@ -117,7 +28,7 @@ theorem itemsWT_nonrest (env : Env) (tys : List Ty) (r : Option Nat) (tc : List 
       ((match r with
        | some idx => (match tys[idx]? with | some t' => spatWT env p t' | none => false)
        | none => false) && itemsWT env tys tc ps) := by
-  cases p <;> first | (simp [SPat.isRest] at h; done) | simp only [itemsWT]
+  cases p <;> first | (simp [SPat.isRest] at h; done) | (simp only [itemsWT]; try rfl)
 
 theorem tcIndices_rest (n m idx : Nat) (seen : Bool) (ps : List SPat) :
     tcIndices n m idx seen (.rest :: ps) =
